@@ -38,6 +38,12 @@ var zzC08Progs = []string{
 	"test {a:1 b:2} {b:2 a:1}\n",
 	// 10: multi-line map literal formatting
 	"m := {\n  b: 1 // one\n  a: 2\n}\nprint m\ndel m \"b\"\nm.d = 4\nprint m (has m \"a\") (len m)\n",
+	// 12: unused parameters on one line, unused variables around them
+	"u := 1\nfunc f a:num b:num c:num\n    d := 1\nend\nfunc g p:string q:string\n    print 1\nend\nf 1 2 3\ng \"a\" \"b\"\n",
+	// 13: printf with every verb over composite and basic values
+	"a := [1 2]\nm := {k:a}\nv:any\nv = a\nprintf \"%d %t %f %q %x %5s|%v %s\\n\" a m a m v a m a\nprintf \"%d %t %5.2f %q %x %v %s\\n\" 1 true 2 \"s\" 255 v \"t\"\nprint (sprintf \"%d|%f|%e|%g|%c|%U|%p\" a m v a m a m)\n",
+	// 14: string conversion and joining of nested composites
+	"m := {b:[{z:1 y:2}] a:[]}\nprint (sprint m) (sprintf \"%v\" m) (join [1 2] \",\")\ns := sprint [m m]\nprint s (len s)\n",
 	// 11: mixed-type map literal inside array, typeof
 	"x := {p:1}\narr := [{a:1 b:\"s\"} {c:x}]\nprint (typeof arr)\n",
 }
